@@ -8,6 +8,7 @@ import (
 	"go/constant"
 	"go/token"
 	"go/types"
+	"golang.org/x/tools/go/packages"
 	"sort"
 	"strings"
 )
@@ -213,7 +214,15 @@ func ruleACT1(c *Ctx) {
 				iTop = i
 			}
 		}
-		order := iProd >= 0 && iAct > iProd && iPop > iAct && iTop > iPop && iGoto > iTop && iPush > iGoto
+		// the state uncovered by the pop: read into a local after the pop, or inline in the goto
+		// lookup (which itself follows the pop)
+		inlineTop := false
+		if iGoto >= 0 && iTop == -1 {
+			if gt := callNamed(info, reduce.List[iGoto], "_Find"); gt != nil && len(gt.Args) == 3 && strings.HasSuffix(exprString(ast.Unparen(gt.Args[1])), "Peek(0).State") {
+				inlineTop = true
+			}
+		}
+		order := iProd >= 0 && iAct > iProd && iPop > iAct && iPush > iGoto && ((iTop > iPop && iGoto > iTop) || (inlineTop && iGoto > iPop))
 		if !order {
 			c.bad(rule, variant+"/parse/reduce-sequence", ti.Pos(reduce.Pos()), "the reduce arm is not: prod := -action; res := _act(prod); Pop(termCount); top := Peek(0).State; next := _Find(_goto, top, rule); Push (indices prod=%d act=%d pop=%d top=%d goto=%d push=%d)", iProd, iAct, iPop, iTop, iGoto, iPush)
 			continue
@@ -235,7 +244,7 @@ func ruleACT1(c *Ctx) {
 		// goto on rule := _rules[prod] from the state uncovered by the pop
 		rl := exprString(gt.Args[2])
 		rlDef := defOf(reduce, rl)
-		okGoto := rlDef != nil && isTableRead(info, rlDef, "_rules", prodVar) && exprString(gt.Args[1]) == exprString(reduce.List[iTop].(*ast.AssignStmt).Lhs[0])
+		okGoto := rlDef != nil && isTableRead(info, rlDef, "_rules", prodVar) && (inlineTop || exprString(gt.Args[1]) == exprString(reduce.List[iTop].(*ast.AssignStmt).Lhs[0]))
 		// push {State: next, Sym: res}
 		okPush := false
 		if len(push.Args) == 1 {
@@ -261,7 +270,10 @@ func ruleACT1(c *Ctx) {
 		// shift arm
 		spush := callNamed(info, shift, "Push")
 		iSPush := find(shift, func(s ast.Stmt) bool { es, ok := s.(*ast.ExprStmt); return ok && callNamed(info, es, "Push") != nil })
-		iRead := find(shift, func(s ast.Stmt) bool { es, ok := s.(*ast.ExprStmt); return ok && callNamed(info, es, "_readToken") != nil })
+		iRead := find(shift, func(s ast.Stmt) bool {
+			es, ok := s.(*ast.ExprStmt)
+			return ok && callNamed(info, es, "_readToken") != nil
+		})
 		okShift := false
 		if spush != nil && len(spush.Args) == 1 {
 			if cl, ok := spush.Args[0].(*ast.CompositeLit); ok {
@@ -573,80 +585,333 @@ func evalRuleGenerated(c *Ctx, name string) (string, string) {
 	if fd == nil {
 		return "", "codegen.RuleGenerated not found"
 	}
-	info := pk.TypesInfo
-	var sw *ast.SwitchStmt
-	ast.Inspect(fd.Body, func(n ast.Node) bool {
-		if s, ok := n.(*ast.SwitchStmt); ok && sw == nil {
-			sw = s
-		}
-		return true
-	})
-	if sw == nil || sw.Tag != nil {
-		return "", "RuleGenerated is not a tagless switch"
+	ev := &strEval{p: p, pk: pk, info: pk.TypesInfo, env: map[types.Object]any{}, sample: name}
+	// the parameter is the rule; its Name field is the sample
+	if fd.Type.Params != nil && len(fd.Type.Params.List) == 1 && len(fd.Type.Params.List[0].Names) == 1 {
+		ev.ruleParam = pk.TypesInfo.Defs[fd.Type.Params.List[0].Names[0]]
 	}
-	ret := func(cc *ast.CaseClause) (string, bool) {
-		if len(cc.Body) == 1 {
-			if rs, ok := cc.Body[0].(*ast.ReturnStmt); ok && len(rs.Results) == 1 {
-				if s, ok := constString(info, rs.Results[0]); ok {
-					return s, true
+	v, done, err := ev.stmts(fd.Body.List)
+	if err != "" {
+		return "", err
+	}
+	if !done {
+		return "", "no case matched"
+	}
+	return v, ""
+}
+
+// strEval folds a pure string classifier (if / tagless switch / range over a package-level table
+// of constants / return of a constant) for one sample name. It is constant folding over the
+// function's syntax: anything else is reported as not evaluable.
+type strEval struct {
+	p         *Program
+	pk        *packages.Package
+	info      *types.Info
+	env       map[types.Object]any // string | map[string]any (struct of constants)
+	ruleParam types.Object
+	sample    string
+	depth     int
+}
+
+func (ev *strEval) stmts(list []ast.Stmt) (string, bool, string) {
+	for _, st := range list {
+		v, done, err := ev.stmt(st)
+		if err != "" || done {
+			return v, done, err
+		}
+	}
+	return "", false, ""
+}
+
+func (ev *strEval) stmt(st ast.Stmt) (string, bool, string) {
+	switch x := st.(type) {
+	case *ast.ReturnStmt:
+		if len(x.Results) != 1 {
+			return "", false, "return with " + fmt.Sprint(len(x.Results)) + " results"
+		}
+		v, err := ev.expr(x.Results[0])
+		if err != "" {
+			return "", false, err
+		}
+		s, ok := v.(string)
+		if !ok {
+			return "", false, "returns a non-constant"
+		}
+		return s, true, ""
+	case *ast.BlockStmt:
+		return ev.stmts(x.List)
+	case *ast.IfStmt:
+		if x.Init != nil {
+			return "", false, "if with init statement"
+		}
+		c, err := ev.cond(x.Cond)
+		if err != "" {
+			return "", false, err
+		}
+		if c {
+			return ev.stmts(x.Body.List)
+		}
+		if x.Else != nil {
+			return ev.stmt(x.Else)
+		}
+		return "", false, ""
+	case *ast.SwitchStmt:
+		if x.Init != nil {
+			return "", false, "switch with init statement"
+		}
+		var tag any
+		if x.Tag != nil {
+			v, err := ev.expr(x.Tag)
+			if err != "" {
+				return "", false, err
+			}
+			tag = v
+		}
+		var def *ast.CaseClause
+		for _, cl := range x.Body.List {
+			cc := cl.(*ast.CaseClause)
+			if cc.List == nil {
+				def = cc
+				continue
+			}
+			for _, e := range cc.List {
+				hit := false
+				if x.Tag == nil {
+					c, err := ev.cond(e)
+					if err != "" {
+						return "", false, err
+					}
+					hit = c
+				} else {
+					v, err := ev.expr(e)
+					if err != "" {
+						return "", false, err
+					}
+					hit = v == tag
+				}
+				if hit {
+					return ev.stmts(cc.Body)
 				}
 			}
 		}
-		return "", false
-	}
-	var def *ast.CaseClause
-	for _, cl := range sw.Body.List {
-		cc := cl.(*ast.CaseClause)
-		if cc.List == nil {
-			def = cc
-			continue
+		if def != nil {
+			return ev.stmts(def.Body)
 		}
-		for _, cond := range cc.List {
-			hit := false
-			switch x := ast.Unparen(cond).(type) {
-			case *ast.CallExpr:
-				full := fullName(calleeFunc(info, x))
-				if len(x.Args) == 2 {
-					arg, ok := constString(info, x.Args[1])
+		return "", false, ""
+	case *ast.RangeStmt:
+		elems, err := ev.tableOf(x.X)
+		if err != "" {
+			return "", false, err
+		}
+		var valObj types.Object
+		if id, ok := x.Value.(*ast.Ident); ok {
+			valObj = ev.info.Defs[id]
+		}
+		for _, el := range elems {
+			if valObj != nil {
+				ev.env[valObj] = el
+			}
+			v, done, err := ev.stmts(x.Body.List)
+			if err != "" || done {
+				return v, done, err
+			}
+		}
+		return "", false, ""
+	}
+	return "", false, fmt.Sprintf("statement %T is not evaluable", st)
+}
+
+// tableOf resolves a package-level slice/array variable with a composite-literal value into its
+// elements (constants or structs of constants).
+func (ev *strEval) tableOf(e ast.Expr) ([]any, string) {
+	o := usesObj(ev.info, e)
+	v, ok := o.(*types.Var)
+	if !ok || v.Parent() != ev.pk.Types.Scope() {
+		return nil, "range over `" + exprString(e) + "` (not a package-level table)"
+	}
+	for _, f := range ev.pk.Syntax {
+		for _, d := range f.Decls {
+			gd, ok := d.(*ast.GenDecl)
+			if !ok {
+				continue
+			}
+			for _, sp := range gd.Specs {
+				vs, ok := sp.(*ast.ValueSpec)
+				if !ok {
+					continue
+				}
+				for i, nm := range vs.Names {
+					if ev.info.Defs[nm] != o || i >= len(vs.Values) {
+						continue
+					}
+					cl, ok := ast.Unparen(vs.Values[i]).(*ast.CompositeLit)
 					if !ok {
-						return "", "non-constant pattern in RuleGenerated"
+						return nil, "table is not a composite literal"
 					}
-					switch full {
-					case "strings.HasSuffix":
-						hit = strings.HasSuffix(name, arg)
-					case "strings.HasPrefix":
-						hit = strings.HasPrefix(name, arg)
-					case "strings.Contains":
-						hit = strings.Contains(name, arg)
-					default:
-						return "", "unknown predicate " + full + " in RuleGenerated"
+					// the table must not be written anywhere
+					written := false
+					ev.p.ProdFiles(func(pk2 *packages.Package, f2 *ast.File) {
+						if pk2 != ev.pk {
+							return
+						}
+						ast.Inspect(f2, func(n ast.Node) bool {
+							if as, ok := n.(*ast.AssignStmt); ok {
+								for _, l := range as.Lhs {
+									root := l
+									for {
+										if ix, ok := ast.Unparen(root).(*ast.IndexExpr); ok {
+											root = ix.X
+											continue
+										}
+										if sel, ok := ast.Unparen(root).(*ast.SelectorExpr); ok && ev.info.Selections[sel] != nil {
+											root = sel.X
+											continue
+										}
+										break
+									}
+									if usesObj(ev.info, root) == o {
+										written = true
+									}
+								}
+							}
+							return true
+						})
+					})
+					if written {
+						return nil, "the table is modified at run time"
 					}
-				}
-			case *ast.BinaryExpr:
-				if x.Op == token.EQL {
-					if s, ok := constString(info, x.Y); ok {
-						hit = name == s
-					} else {
-						return "", "cannot evaluate `" + exprString(x) + "`"
+					var out []any
+					st, _ := deref(ev.info.TypeOf(cl)).Underlying().(*types.Slice)
+					var elemStruct *types.Struct
+					if st != nil {
+						elemStruct, _ = st.Elem().Underlying().(*types.Struct)
+					} else if at, ok := deref(ev.info.TypeOf(cl)).Underlying().(*types.Array); ok {
+						elemStruct, _ = at.Elem().Underlying().(*types.Struct)
 					}
+					for _, el := range cl.Elts {
+						if kv, ok := el.(*ast.KeyValueExpr); ok {
+							el = kv.Value
+						}
+						if ecl, ok := ast.Unparen(el).(*ast.CompositeLit); ok && elemStruct != nil {
+							m := map[string]any{}
+							for j, fe := range ecl.Elts {
+								if kv, ok := fe.(*ast.KeyValueExpr); ok {
+									if s, ok := constString(ev.info, kv.Value); ok {
+										m[exprString(kv.Key)] = s
+									}
+								} else if j < elemStruct.NumFields() {
+									if s, ok := constString(ev.info, fe); ok {
+										m[elemStruct.Field(j).Name()] = s
+									}
+								}
+							}
+							out = append(out, m)
+							continue
+						}
+						if s, ok := constString(ev.info, el); ok {
+							out = append(out, s)
+							continue
+						}
+						return nil, "table element is not constant"
+					}
+					return out, ""
 				}
-			default:
-				return "", "cannot evaluate `" + exprString(cond) + "`"
-			}
-			if hit {
-				if s, ok := ret(cc); ok {
-					return s, ""
-				}
-				return "", "case does not return a constant"
 			}
 		}
 	}
-	if def != nil {
-		if s, ok := ret(def); ok {
-			return s, ""
+	return nil, "table declaration not found"
+}
+
+func (ev *strEval) cond(e ast.Expr) (bool, string) {
+	e = ast.Unparen(e)
+	switch x := e.(type) {
+	case *ast.UnaryExpr:
+		if x.Op == token.NOT {
+			v, err := ev.cond(x.X)
+			return !v, err
+		}
+	case *ast.BinaryExpr:
+		switch x.Op {
+		case token.LOR, token.LAND:
+			l, err := ev.cond(x.X)
+			if err != "" {
+				return false, err
+			}
+			if (x.Op == token.LOR && l) || (x.Op == token.LAND && !l) {
+				return l, ""
+			}
+			return ev.cond(x.Y)
+		case token.EQL, token.NEQ:
+			l, err := ev.expr(x.X)
+			if err != "" {
+				return false, err
+			}
+			r, err := ev.expr(x.Y)
+			if err != "" {
+				return false, err
+			}
+			return (l == r) == (x.Op == token.EQL), ""
+		}
+	case *ast.CallExpr:
+		full := fullName(calleeFunc(ev.info, x))
+		if len(x.Args) == 2 {
+			a, err := ev.expr(x.Args[0])
+			if err != "" {
+				return false, err
+			}
+			b, err := ev.expr(x.Args[1])
+			if err != "" {
+				return false, err
+			}
+			as, ok1 := a.(string)
+			bs, ok2 := b.(string)
+			if !ok1 || !ok2 {
+				return false, "non-string argument in `" + exprString(x) + "`"
+			}
+			switch full {
+			case "strings.HasSuffix":
+				return strings.HasSuffix(as, bs), ""
+			case "strings.HasPrefix":
+				return strings.HasPrefix(as, bs), ""
+			case "strings.Contains":
+				return strings.Contains(as, bs), ""
+			}
+		}
+		return false, "unknown predicate " + full + " in RuleGenerated"
+	}
+	return false, "cannot evaluate `" + exprString(e) + "`"
+}
+
+func (ev *strEval) expr(e ast.Expr) (any, string) {
+	e = ast.Unparen(e)
+	if s, ok := constString(ev.info, e); ok {
+		return s, ""
+	}
+	switch x := e.(type) {
+	case *ast.Ident:
+		if v, ok := ev.env[usesObj(ev.info, x)]; ok {
+			return v, ""
+		}
+	case *ast.SelectorExpr:
+		if o := usesObj(ev.info, x.X); o != nil {
+			if o == ev.ruleParam && isField(ev.info, x, "parsergen/lr1", "Rule", "Name") {
+				return ev.sample, ""
+			}
+			if m, ok := ev.env[o].(map[string]any); ok {
+				if v, ok := m[x.Sel.Name]; ok {
+					return v, ""
+				}
+			}
+		}
+	case *ast.CallExpr:
+		// conversion of a constant: generated("x")
+		if len(x.Args) == 1 {
+			if tv, ok := ev.info.Types[x.Fun]; ok && tv.IsType() {
+				return ev.expr(x.Args[0])
+			}
 		}
 	}
-	return "", "no case matched"
+	return nil, "cannot evaluate `" + exprString(e) + "`"
 }
 
 var expectedSugar = map[string]struct {
@@ -749,25 +1014,39 @@ func ruleACT3(c *Ctx) {
 		ok, want := false, ""
 		filtered := strings.HasSuffix(mp.Kind, "_f")
 		hasDiscard := strings.Contains(src, ".Discard()")
+		hasAppend, hasZeroDecl := false, false
+		ast.Inspect(cc, func(m ast.Node) bool {
+			switch x := m.(type) {
+			case *ast.CallExpr:
+				if builtinName(ti.Info, x) == "append" {
+					hasAppend = true
+				}
+			case *ast.ValueSpec:
+				if len(x.Values) == 0 {
+					hasZeroDecl = true
+				}
+			}
+			return true
+		})
 		switch {
 		case (mp.Kind == "one_or_more" || mp.Kind == "one_or_more_f") && n == 2:
 			want = "append(list at Peek(1), element at Peek(0))"
-			ok = fmt.Sprint(reads) == "[1 0]" && strings.Contains(src, "append(")
+			ok = fmt.Sprint(reads) == "[1 0]" && hasAppend
 		case (mp.Kind == "one_or_more" || mp.Kind == "one_or_more_f") && n == 1:
 			want = "singleton of the element at Peek(0)"
 			ok = fmt.Sprint(reads) == "[0]"
 		case mp.Kind == "list" && n == 3:
 			want = "append(list at Peek(2), element at Peek(0)); the separator at Peek(1) is never read"
-			ok = fmt.Sprint(reads) == "[2 0]" && strings.Contains(src, "append(")
+			ok = fmt.Sprint(reads) == "[2 0]" && hasAppend
 		case mp.Kind == "list" && n == 1:
 			want = "singleton of the element at Peek(0)"
 			ok = fmt.Sprint(reads) == "[0]"
 		case n == 1: // zero_or_one / zero_or_more(_f): pass the child through
 			want = "the child's value at Peek(0) passed through"
-			ok = fmt.Sprint(reads) == "[0]" && !strings.Contains(src, "append(")
+			ok = fmt.Sprint(reads) == "[0]" && !hasAppend
 		case n == 0:
 			want = "the zero value of the rule's type"
-			ok = len(reads) == 0 && strings.Contains(src, "var zero")
+			ok = len(reads) == 0 && hasZeroDecl
 		}
 		if filtered && (mp.Kind == "one_or_more_f") {
 			ok = ok && hasDiscard
@@ -783,12 +1062,12 @@ func ruleACT3(c *Ctx) {
 }
 
 func nodeSource(ti *TmplInstance, n ast.Node) string {
-	tmpl := ti.TmplOf(n.Pos())
-	f := ti.Files[tmpl]
-	base := ti.Fset.File(f.Pos()).Base()
+	tmpl, s, e, ok := ti.span(n)
+	if !ok {
+		return ""
+	}
 	src := ti.Sources[tmpl]
-	s, e := int(n.Pos())-base, int(n.End())-base
-	if s < 0 || e > len(src) {
+	if s < 0 || e > len(src) || s > e {
 		return ""
 	}
 	return src[s:e]
@@ -911,23 +1190,17 @@ func ruleBIND1(c *Ctx) {
 		"types.AssignableTo(type of term i, type of parameter i): the term's value must be assignable to the parameter",
 		"AssignableTo is not applied as (type of term i, type of parameter i)")
 	// arity first
-	okArity := false
-	ast.Inspect(fd.Body, func(n ast.Node) bool {
-		ifs, ok := n.(*ast.IfStmt)
-		if !ok || ifs.End() > call.Pos() {
-			return true
+	isLenOf := func(e ast.Expr, pkg, typ, field string) bool {
+		lc, ok := ast.Unparen(e).(*ast.CallExpr)
+		return ok && builtinName(info, lc) == "len" && len(lc.Args) == 1 && isField(info, lc.Args[0], pkg, typ, field)
+	}
+	okArity := holds(pathConds(info, parents(fd), call), func(e ast.Expr, pos bool) bool {
+		l, op, r, ok := cmpFact(e, pos)
+		if !ok || op != token.EQL {
+			return false
 		}
-		if be, ok := ifs.Cond.(*ast.BinaryExpr); ok && be.Op == token.NEQ {
-			l, r := exprString(be.X), exprString(be.Y)
-			if (strings.HasSuffix(l, ".Params)") && strings.HasSuffix(r, ".Terms)")) || (strings.HasSuffix(r, ".Params)") && strings.HasSuffix(l, ".Terms)")) {
-				if len(ifs.Body.List) == 1 {
-					if rs, ok := ifs.Body.List[0].(*ast.ReturnStmt); ok && exprString(rs.Results[0]) == "false" {
-						okArity = true
-					}
-				}
-			}
-		}
-		return true
+		return (isLenOf(l, "internal/codegen", "actionMethod", "Params") && isLenOf(r, "parsergen/lr1", "Prod", "Terms")) ||
+			(isLenOf(r, "internal/codegen", "actionMethod", "Params") && isLenOf(l, "parsergen/lr1", "Prod", "Terms"))
 	})
 	c.check(okArity, rule, "codegen.context.matchMethod/arity", p.Pos(fd.Pos()), "a method matches only if its parameter count equals the production's term count", "the parameter count is not compared with the term count before the types")
 	// all methods of the rule are tried and every match kept
@@ -1074,13 +1347,20 @@ func ruleBIND2(c *Ctx) {
 				return true
 			}
 			n++
-			s := exprString(rs.Results[0])
-			if s != "false" && !strings.HasSuffix(s, "!c.Errs.HasError()") {
+			res := ast.Unparen(resolveLocal(info, fd, rs.Results[0]))
+			okOne := exprString(res) == "false"
+			if u, isNot := res.(*ast.UnaryExpr); isNot && u.Op == token.NOT {
+				if call, isCall := ast.Unparen(u.X).(*ast.CallExpr); isCall {
+					if fn := calleeFunc(info, call); fn != nil && fn.Name() == "HasError" && isErrLoggerMethod(fn) {
+						okOne = true
+					}
+				}
+			}
+			if !okOne {
 				okRet = false
 			}
 			return true
 		})
-		_ = info
 		c.check(okRet && n > 0, rule, "codegen.context.AssignActions/success-iff-no-error", p.Pos(fd.Pos()), "AssignActions returns false or !HasError(): success only when no diagnostic was logged", "AssignActions can return true although diagnostics were logged")
 	}
 }
@@ -1204,7 +1484,20 @@ func ruleBIND4(c *Ctx) {
 		"the type is spelled exactly as bound (alias names are kept, so unexported targets of exported aliases are never named)",
 		"go_type rewrites the type (`"+exprString(ts.Args[0])+"`) before spelling it: an exported alias of an unexported type would be spelled by its unnameable target")
 	okQ := false
-	if q, ok := ts.Args[1].(*ast.FuncLit); ok {
+	qArg := ast.Unparen(ts.Args[1])
+	if id, isId := qArg.(*ast.Ident); isId {
+		// a named closure or a package-level function
+		if o := usesObj(info, id); o != nil {
+			if fnObj, isFn := o.(*types.Func); isFn {
+				if d := p.funcDecls[fnObj.Origin()]; d != nil {
+					qArg = &ast.FuncLit{Type: d.Type, Body: d.Body}
+				}
+			} else if def := localDefs(info, outerOf(p, pk, goType))[o]; def != nil {
+				qArg = ast.Unparen(def)
+			}
+		}
+	}
+	if q, ok := qArg.(*ast.FuncLit); ok {
 		var emptyCond ast.Expr
 		imp := false
 		ast.Inspect(q.Body, func(n ast.Node) bool {
@@ -1261,4 +1554,18 @@ func ruleBIND4(c *Ctx) {
 	}
 	c.check(okImp, rule, "codegen.imports.WriteTo/all-aliases", "", "every alias handed out by Import is written to the import block", "not every alias handed out by Import is written to the import block")
 	_ = constant.MakeBool
+}
+
+// outerOf returns the function declaration that contains node n.
+func outerOf(p *Program, pk *packages.Package, n ast.Node) ast.Node {
+	for _, f := range pk.Syntax {
+		if f.Pos() <= n.Pos() && n.End() <= f.End() {
+			for _, d := range f.Decls {
+				if fd, ok := d.(*ast.FuncDecl); ok && fd.Pos() <= n.Pos() && n.End() <= fd.End() {
+					return fd
+				}
+			}
+		}
+	}
+	return n
 }
